@@ -286,8 +286,46 @@ private theorem rdFromExprs_q (H : Agree e1 e2 S) (cte : List String) :
   | f :: r => by simp [Spec.rdFromExprs, qFromExprs, rdFromExpr_q H cte f, rdFromExprs_q H cte r]
 end
 
+private theorem qExprs_eq_map (S : String) (cte : List String) : ∀ es : List Expr, qExprs S cte es = es.map (qExpr S cte)
+  | [] => by simp [qExprs]
+  | e :: r => by simp [qExprs, qExprs_eq_map S cte r]
+
 theorem spec_reads_agree (H : Agree e1 e2 S) (s : Stmt) : Spec.reads e1 s = Spec.reads e2 (qualifyStmt S s) := by
-  cases s <;> simp [Spec.reads, qualifyStmt, ← rdQuery_q H, ← tableName_qName H]
+  cases s with
+  | update tgt a sets frm wh =>
+    have hs : (sets.map (qSet S)).map (·.src) = qExprs S [] (sets.map (·.src)) := by
+      rw [qExprs_eq_map]; simp [List.map_map, Function.comp, qSet]
+    have hwh : Spec.rdOpt e1 [] wh = Spec.rdOpt e2 [] (qOpt S [] wh) := by
+      cases wh with
+      | none => simp [Spec.rdOpt, qOpt]
+      | some e => simp [Spec.rdOpt, qOpt, rdExpr_q H [] e]
+    simp only [Spec.reads, qualifyStmt]
+    rw [hs, ← rdExprs_q H, ← rdFromExprs_q H, hwh]
+  | merge tgt a src on ups ins =>
+    have hset : ∀ l : List SetClause, (l.map (qSet S)).map (·.src) = (l.map (·.src)).map (qExpr S []) := by
+      intro l; simp [List.map_map, Function.comp, qSet]
+    have hu : ((ups.map (fun l => l.map (qSet S))).flatten.map (·.src)) = qExprs S [] (ups.flatten.map (·.src)) := by
+      rw [qExprs_eq_map]
+      induction ups with
+      | nil => rfl
+      | cons l r ih =>
+        simp only [List.map_cons, List.flatten_cons, List.map_append, ih, hset]
+    have hi : ((ins.map (qMergeInsert S)).flatMap (·.vals)) = qExprs S [] (ins.flatMap (·.vals)) := by
+      rw [qExprs_eq_map]
+      induction ins with
+      | nil => rfl
+      | cons i r ih =>
+        simp only [List.map_cons, List.flatMap_cons, List.map_append, ih]
+        cases i
+        simp [qMergeInsert, qExprs_eq_map]
+    cases src with
+    | table parts a' =>
+      simp only [Spec.reads, qualifyStmt, qMergeSource]
+      rw [hu, hi, ← rdExprs_q H, ← rdExprs_q H, ← rdExpr_q H, ← tableName_qName H]
+    | derived q a' =>
+      simp only [Spec.reads, qualifyStmt, qMergeSource]
+      rw [hu, hi, ← rdExprs_q H, ← rdExprs_q H, ← rdExpr_q H, ← rdQuery_q H]
+  | _ => simp [Spec.reads, qualifyStmt, ← rdQuery_q H, ← tableName_qName H]
 
 theorem spec_writes_agree (H : Agree e1 e2 S) (s : Stmt) : Spec.writes e1 s = Spec.writes e2 (qualifyStmt S s) := by
   cases s <;> simp [Spec.writes, qualifyStmt, ← tableName_qName H]
@@ -331,12 +369,11 @@ theorem stmtType_qualify (S : String) (s : Stmt) : stmtType (qualifyStmt S s) = 
 
 /-- the statement contains a query the select / CTE extractors walk -/
 def hasQuery : Stmt → Bool
-  | .query .. | .insert .. | .ctas .. | .createView .. => true
+  | .query .. | .insert .. | .ctas .. | .createView .. | .update .. | .merge .. => true
   | _ => false
 
 /-- `walk_default_eq_qualify`, part 1: for every statement that contains no query (INSERT … VALUES, CREATE TABLE [LIKE],
-    DROP, ALTER … RENAME, RENAME TABLE, no‑op and unsupported statements; UPDATE / MERGE / COPY are outside the modelled walk
-    and answer the same error on both sides) the statement holder GRAPH under default `S` equals the holder graph of the
+    DROP, ALTER … RENAME, RENAME TABLE, COPY, no‑op and unsupported statements) the statement holder GRAPH under default `S` equals the holder graph of the
     qualified statement under no default — tables, tags, columns (incl. provider‑given ones), edges, order.
 
     Full statement (not proved for statements with a query, see `walk_flat_default_eq_qualify_partial` and the note there):
@@ -362,9 +399,9 @@ theorem walk_default_eq_qualify_partial (env : Env) (S : String) (h : Plain S) (
         | (simp only [qualifyStmt, writeTargetHolder, ← mkTable_qName env S h])
     | createTable tgt ine cols => simp only [qualifyStmt, ← mkTable_qName env S h]
     | createTableLike tgt src => simp only [qualifyStmt, ← mkTable_qName env S h]
-    | update _ _ _ _ _ => simp only [qualifyStmt]
-    | merge _ _ _ _ _ _ => simp only [qualifyStmt]
-    | copy _ _ => simp only [qualifyStmt]
+    | update _ _ _ _ _ => simp [hasQuery] at hs
+    | merge _ _ _ _ _ _ => simp [hasQuery] at hs
+    | copy tgt path => simp only [qualifyStmt, exCopy, ← mkTable_qName env S h]
     | drop v ie tgt => simp only [qualifyStmt, exDrop, ← mkTable_qName env S h]
     | alterRename x y => simp only [qualifyStmt, exRename, List.foldl, ← mkTable_qName env S h]
     | renameTable ps =>
@@ -694,6 +731,7 @@ def frag14 : Stmt → Bool
   | .insert _ _ _ _ q _ => flatSelect q
   | .ctas _ _ _ q _ => flatSelect q
   | .createView _ _ _ q => flatSelect q
+  | .update .. | .merge .. => false
   | _ => true
 
 /-- the create/insert extractor on a flat block: the target holder `G` is the same on both sides (`mkTable_qName`; the
@@ -815,8 +853,8 @@ theorem walk_flat_default_eq_qualify_partial (env : Env) (S : String) (h : Plain
   | insertValues _ _ _ => exact walk_default_eq_qualify_partial env S h silent _ rfl
   | createTable _ _ _ => exact walk_default_eq_qualify_partial env S h silent _ rfl
   | createTableLike _ _ => exact walk_default_eq_qualify_partial env S h silent _ rfl
-  | update _ _ _ _ _ => exact walk_default_eq_qualify_partial env S h silent _ rfl
-  | merge _ _ _ _ _ _ => exact walk_default_eq_qualify_partial env S h silent _ rfl
+  | update _ _ _ _ _ => simp [frag14] at hs
+  | merge _ _ _ _ _ _ => simp [frag14] at hs
   | copy _ _ => exact walk_default_eq_qualify_partial env S h silent _ rfl
   | drop _ _ _ => exact walk_default_eq_qualify_partial env S h silent _ rfl
   | alterRename _ _ => exact walk_default_eq_qualify_partial env S h silent _ rfl
